@@ -276,6 +276,23 @@ def run(ctx):
         case["meta"]["stream"] = "single_asan"
         jobs.append((exe_asan, drv, pl.case_to_json(case), wd, "a%d" % k, True))
 
+    # the dynamic supernode-storage scheme (SuperLU_DYNAMIC_SNODE_STORE set): only the relaxed supernodes are pre-set and lusup[] cannot
+    # grow, so a re-factorization whose pivots differ may legitimately stop with the library's diagnostic.  One whose values AND pivot
+    # rows are those of the first factorization (usepr = YES, same A) needs exactly the storage the first one used: the capacity of
+    # lusup[] recorded in the persistent Glu must survive.  One thread, system workspace, oracles only (the ?PresetMap model used for
+    # the K-exact comparison is the static one)
+    for k in range(60 if quick else 400):
+        case = pl.gen_c08_case(ctx.rng, 2, 14)
+        f0 = next((o for o in case["ops"] if o["op"] == "first"), None)
+        if f0 is None or case["ops"][0] is not f0:
+            continue
+        f0["nprocs"] = 1; f0["lwork"] = 0
+        rf = dict(f0, op="refact", usepr=1); rf.pop("permc", None)
+        sv = dict(op="solve", slot=f0["slot"], api=f0["api"] if f0["api"] != 2 else 0, nprocs=1, trans=0, nrhs=f0["nrhs"], rhs=f0["rhs"])
+        case["ops"] = [f0, rf, dict(rf), sv]
+        case["meta"]["stream"] = "dynamic_same_refact"; case["meta"]["user"] = False; case["meta"]["env"] = {"SuperLU_DYNAMIC_SNODE_STORE": "1"}
+        jobs.append((exe, drv, pl.case_to_json(case), wd, "d%d" % k, False))
+
     t0 = time.time()
     with Pool(min(vf.NCPU, 16)) as pool:
         results = pool.map(eval_case, jobs, chunksize=4)
